@@ -252,19 +252,19 @@ impl PlutusList {
             Some(definite) => definite,
             None => self.elems.is_empty(),
         };
+        // the announced length is that of what is written: without the repeats when they are left out
+        let elements: Vec<&PlutusData> = if need_deduplication {
+            self.deduplicated_view()
+        } else {
+            self.elems.iter().collect()
+        };
         if use_definite_encoding {
-            serializer.write_array(cbor_event::Len::Len(self.elems.len() as u64))?;
+            serializer.write_array(cbor_event::Len::Len(elements.len() as u64))?;
         } else {
             serializer.write_array(cbor_event::Len::Indefinite)?;
         }
-        if need_deduplication {
-            for element in self.deduplicated_view() {
-                element.serialize(serializer)?;
-            }
-        } else {
-            for element in &self.elems {
-                element.serialize(serializer)?;
-            }
+        for element in elements {
+            element.serialize(serializer)?;
         }
         if !use_definite_encoding {
             serializer.write_special(cbor_event::Special::Break)?;
